@@ -15,7 +15,7 @@ path it touched); OJsonTrace replays the log against the same operators.
 import json as pyjson
 import os, random
 from vlib import Broken, b_json, sh, VERIF
-from a1util import b_json_tolerant, run_cases_par, crash_sig, Phases, tlc_many
+from a1util import b_json_tolerant, run_cases_par, crash_sig, Phases, tlc_many, load_replay, finish_keeping_evidence
 
 
 def q(s):
@@ -69,7 +69,7 @@ def path_list(max_len, keys=("a", "b")):
     return seqs
 
 
-def compare(ctx, behaviours, cases, outs, tag=""):
+def compare(ctx, behaviours, cases, outs, rec):
     steps_checked = reads_checked = 0
     for i, b in enumerate(behaviours):
         o = outs.get(i)
@@ -99,19 +99,19 @@ def compare(ctx, behaviours, cases, outs, tag=""):
             if ob["err"] != want_err:
                 ctx.mismatch("outcome:%s%s:%s" % (a, tk, "unexpected-exception" if ob["err"] else "missing-exception"),
                              "%s raised %s, spec %s; history %s" % (a, "an exception" if ob["err"] else "nothing",
-                                                                  "error" if want_err else "ok", hist_txt), [cases[i]])
+                                                                  "error" if want_err else "ok", hist_txt), rec(i))
             want = S(s["doc"])
             if ob["S"] != want:
                 ctx.mismatch("document:%s%s" % (a, tk), "after %s the document reads %s, spec %s; history %s" %
-                             (a, ob["S"], want, hist_txt), [cases[i]])
+                             (a, ob["S"], want, hist_txt), rec(i))
                 break     # later steps start from a different document
             if ob["S2"] != ob["S"]:
                 ctx.mismatch("reads-changed-the-document", "document %s became %s after reading; history %s" %
-                             (ob["S"], ob["S2"], hist_txt), [cases[i]])
+                             (ob["S"], ob["S2"], hist_txt), rec(i))
             if ob["size"] != s["size"]:
-                ctx.mismatch("size:root", "size() = %d, spec %d for %s" % (ob["size"], s["size"], want), [cases[i]])
+                ctx.mismatch("size:root", "size() = %d, spec %d for %s" % (ob["size"], s["size"], want), rec(i))
             if s["doc"]["k"] == "obj" and ob["keys"] != ",".join(s["doc"]["ks"]):
-                ctx.mismatch("keys:root", "keys() = %s, spec %s" % (ob["keys"], s["doc"]["ks"]), [cases[i]])
+                ctx.mismatch("keys:root", "keys() = %s, spec %s" % (ob["keys"], s["doc"]["ks"]), rec(i))
             for t, p in enumerate(paths):
                 reads_checked += 1
                 rd, R = s["rd"][t], ob["R"][t]
@@ -121,24 +121,24 @@ def compare(ctx, behaviours, cases, outs, tag=""):
                 kx = k + (":escaped-slash" if "\\" in pt else "")
                 where = "path %s of %s; history %s" % (pt, want, hist_txt)
                 if R["C"] != ev:
-                    ctx.mismatch("read:const[]:%s" % kx, "const operator[] reads %s, spec %s; %s" % (R["C"], ev, where), [cases[i]])
+                    ctx.mismatch("read:const[]:%s" % kx, "const operator[] reads %s, spec %s; %s" % (R["C"], ev, where), rec(i))
                 if R["H"] != rd["h"]:
-                    ctx.mismatch("read:has:%s" % kx, "has() = %d, spec %d; %s" % (R["H"], rd["h"], where), [cases[i]])
+                    ctx.mismatch("read:has:%s" % kx, "has() = %d, spec %d; %s" % (R["H"], rd["h"], where), rec(i))
                 eg = ev if k != "none" else q("DFLT")
                 if R["G"] != eg:
-                    ctx.mismatch("read:get<json>:%s" % kx, "get<json>(path, \"DFLT\") reads %s, spec %s; %s" % (R["G"], eg, where), [cases[i]])
+                    ctx.mismatch("read:get<json>:%s" % kx, "get<json>(path, \"DFLT\") reads %s, spec %s; %s" % (R["G"], eg, where), rec(i))
                 if R["P"] != ev:
-                    ctx.mismatch("read:getPathValue:%s" % kx, "getPathValue reads %s, spec %s; %s" % (R["P"], ev, where), [cases[i]])
+                    ctx.mismatch("read:getPathValue:%s" % kx, "getPathValue reads %s, spec %s; %s" % (R["P"], ev, where), rec(i))
                 if k in ("none", "num"):
                     ei = -7 if k == "none" else int(rd["v"])
                     if R["Gi"] != ei:
-                        ctx.mismatch("read:get<int>:%s" % kx, "get<int>(path, -7) = %d, spec %d; %s" % (R["Gi"], ei, where), [cases[i]])
+                        ctx.mismatch("read:get<int>:%s" % kx, "get<int>(path, -7) = %d, spec %d; %s" % (R["Gi"], ei, where), rec(i))
                 if k in ("none", "str"):
                     es = "DFLT" if k == "none" else rd["v"]
                     if R["Gs"] != es:
-                        ctx.mismatch("read:get<string>:%s" % kx, "get<string>(path, \"DFLT\") = %r, spec %r; %s" % (R["Gs"], es, where), [cases[i]])
+                        ctx.mismatch("read:get<string>:%s" % kx, "get<string>(path, \"DFLT\") = %r, spec %r; %s" % (R["Gs"], es, where), rec(i))
                 if k != "str" and R["Z"] != rd["z"]:
-                    ctx.mismatch("read:size:%s" % kx, "size() of the value read = %d, spec %d; %s" % (R["Z"], rd["z"], where), [cases[i]])
+                    ctx.mismatch("read:size:%s" % kx, "size() of the value read = %d, spec %d; %s" % (R["Z"], rd["z"], where), rec(i))
             prev_rd = s["rd"]
     return steps_checked, reads_checked
 
@@ -147,46 +147,57 @@ def run(ctx):
     rng = random.Random(ctx.seed)
     ph = Phases(ctx)
     thorough = ctx.tier == "thorough"
-    # 1. design run + vacuity; a shallow merge must be rejected by the model's theorems
-    r = ctx.tlc("mc/MC_OJson.tla", "mc/OJson_design_big.cfg" if thorough else "mc/OJson_design.cfg",
-                workers=(8 if thorough else 4), coverage=True, timeout=3000)
-    ctx.tlc_must_pass(r, "OJson design")
-    ctx.require_coverage(r, ["SetPath", "Remove", "SetKey", "Merge"])
-    rb = ctx.tlc("mc/MC_OJson.tla", "mc/OJson_shallow.cfg", workers=1, expect_violation=True)
-    if rb.violated != "MergeRightWins":
-        raise Broken("OJson with Variant=shallowMerge should violate MergeRightWins (theorems lost their sensitivity): rc=%s violated=%s"
-                     % (rb.rc, rb.violated))
-    ph.mark("tlc-design")
-    # 2. behaviours
-    if thorough:
-        gens = [("gen_big", None, None, 3), ("gen3", None, None, 1), ("genS", None, None, 1), ("genE", None, None, 2), ("sim", 20000, 10, 3)]
+    if ctx.replay:
+        recs = load_replay(ctx.replay)
+        if "e" in recs[0]["case"]:
+            raise Broken("this artefact is a driver-log prefix (trace validation); validate it with spec/trace/OJsonTrace.tla")
+        behaviours = [r["spec"] for r in recs]
+        cases = [r["case"] for r in recs]
+        rb, per_gen = None, {}
     else:
-        gens = [("gen", None, None, 2), ("gen3", None, None, 1), ("genS", None, None, 1), ("genE", None, None, 2), ("sim", 300, 10, 3)]
-    jobs = [(name, dict(spec="mc/MC_OJson.tla", cfg="mc/OJson_%s.cfg" % name, workers=(1 if not thorough or sim is None else 4),
-                        simulate=sim, depth=(depth + 1 if depth else None), timeout=3000))
-            for name, sim, depth, _ in gens]
-    results = tlc_many(ctx, jobs, par=3)
-    behaviours, cases, per_gen = [], [], {}
-    seen = set()
-    for name, sim, depth, plen in gens:
-        g = results[name]
-        if g.rc != 0 and not g.printed:
-            raise Broken("generation failed (%s): %s" % (name, g.out[-2000:]))
-        bs = b_json_tolerant(g, name)
-        if not bs:
-            raise Broken("no behaviours generated by %s:\n%s" % (name, g.out[-1500:]))
-        per_gen[name] = len(bs)
-        paths = path_list(plen, ("a", "a\\/b")) if name == "genE" else path_list(plen)
-        for b in bs:
-            if len(b[0]["rd"]) != len(paths):
-                raise Broken("path enumeration of the check and of the spec differ (%s)" % name)
-            key = pyjson.dumps([(s["a"], s["p"], s["key"], s["v"]) for s in b], sort_keys=True) + str(plen)
-            if key in seen:
-                continue
-            seen.add(key)
-            behaviours.append(b)
-            cases.append({"paths": paths, "steps": [{"a": s["a"], "p": s["p"], "key": s["key"], "v": s["v"]} for s in b]})
-    ph.mark("tlc-generate")
+        # 1. design run + vacuity; a shallow merge must be rejected by the model's theorems
+        r = ctx.tlc("mc/MC_OJson.tla", "mc/OJson_design_big.cfg" if thorough else "mc/OJson_design.cfg",
+                    workers=(8 if thorough else 4), coverage=True, timeout=3000)
+        ctx.tlc_must_pass(r, "OJson design")
+        ctx.require_coverage(r, ["SetPath", "Remove", "SetKey", "Merge"])
+        rb = ctx.tlc("mc/MC_OJson.tla", "mc/OJson_shallow.cfg", workers=1, expect_violation=True)
+        if rb.violated != "MergeRightWins":
+            raise Broken("OJson with Variant=shallowMerge should violate MergeRightWins (theorems lost their sensitivity): rc=%s violated=%s"
+                         % (rb.rc, rb.violated))
+        ph.mark("tlc-design")
+        # 2. behaviours
+        if thorough:
+            gens = [("gen_big", None, None, 3), ("gen3", None, None, 1), ("genS", None, None, 1), ("genE", None, None, 2), ("sim", 5000, 10, 3)]
+        else:
+            gens = [("gen", None, None, 2), ("gen3", None, None, 1), ("genS", None, None, 1), ("genE", None, None, 2), ("sim", 300, 10, 3)]
+        jobs = [(name, dict(spec="mc/MC_OJson.tla", cfg="mc/OJson_%s.cfg" % name, workers=1,
+                            simulate=sim, depth=(depth + 1 if depth else None), timeout=3000))
+                for name, sim, depth, _ in gens]
+        results = tlc_many(ctx, jobs, par=3)
+        behaviours, cases, per_gen = [], [], {}
+        seen = set()
+        for name, sim, depth, plen in gens:
+            g = results[name]
+            if g.rc != 0 and not g.printed:
+                raise Broken("generation failed (%s): %s" % (name, g.out[-2000:]))
+            bs = b_json_tolerant(g, name)
+            if not bs:
+                raise Broken("no behaviours generated by %s:\n%s" % (name, g.out[-1500:]))
+            per_gen[name] = len(bs)
+            paths = path_list(plen, ("a", "a\\/b")) if name == "genE" else path_list(plen)
+            for b in bs:
+                if len(b[0]["rd"]) != len(paths):
+                    raise Broken("path enumeration of the check and of the spec differ (%s)" % name)
+                key = pyjson.dumps([(s["a"], s["p"], s["key"], s["v"]) for s in b], sort_keys=True) + str(plen)
+                if key in seen:
+                    continue
+                seen.add(key)
+                behaviours.append(b)
+                cases.append({"paths": paths, "steps": [{"a": s["a"], "p": s["p"], "key": s["key"], "v": s["v"]} for s in b]})
+        ph.mark("tlc-generate")
+
+    def rec(i):
+        return [{"case": cases[i], "spec": behaviours[i]}]
     exe, lib = ctx.build_harness("ojson_replay", ["ojson_replay.cpp"])
     env = ctx.occa_env(lib)
     env["ASAN_OPTIONS"] += ":quarantine_size_mb=16"
@@ -197,20 +208,20 @@ def run(ctx):
         b = cases[c["beh"]]
         act = b["steps"][c["step"]]["a"] if 0 <= c["step"] < len(b["steps"]) else "?"
         ctx.mismatch(crash_sig(c, act), "sanitizer/crash at step %s (%s) of %s: %s" %
-                     (c["step"], act, b["steps"], "; ".join("%s %s %s" % r for r in c["reports"]) or c["crash"]), [b])
+                     (c["step"], act, b["steps"], "; ".join("%s %s %s" % r for r in c["reports"]) or c["crash"]), rec(c["beh"]))
     for rep in info["soft_reports"]:
         ctx.mismatch("ub:%s@%s:%s" % (rep[0], rep[2] or "?", rep[1].split(":")[0]),
                      "UBSan report while replaying: %s at %s in %s" % rep, None)
-    steps_checked, reads_checked = compare(ctx, behaviours, cases, outs)
+    steps_checked, reads_checked = compare(ctx, behaviours, cases, outs, rec)
     ph.mark("compare")
     # 3. trace validation of a seeded random driver
-    tv = trace_validation(ctx, lib, env, thorough)
+    tv = {} if ctx.replay else trace_validation(ctx, lib, env, thorough)
     ph.mark("trace-validation")
     ph.done()
     ctx.traces_validated = len(outs) + tv.get("traces", 0)
     ctx.samples = [cases[0], cases[len(cases) // 2], cases[-1]]
     ctx.cov.update({"behaviours_replayed": len(outs), "steps_checked": steps_checked, "reads_checked": reads_checked,
-                    "crashes": len(crashes), "behaviours_by_generator": per_gen, "model_shallow_merge_violates": rb.violated,
+                    "crashes": len(crashes), "behaviours_by_generator": per_gen, "model_shallow_merge_violates": rb.violated if rb else "(replay)",
                     "trace_events_validated": tv.get("events", 0), "trace_histories": tv.get("traces", 0)})
     ctx.assumptions += [
         "keys a, b as path components (paths of 1..3 components), the key 'a/b' only through set() and as a member of += right-hand sides",
@@ -221,6 +232,8 @@ def run(ctx):
         "the non-const operator[] used as a read is not part of the histories (it creates the path by design)",
         "ASan/UBSan active during replay",
     ]
+    if ctx.replay:
+        return finish_keeping_evidence(ctx)
     return ctx.finish(exhaustive=False)
 
 
@@ -257,6 +270,6 @@ def trace_validation(ctx, lib, env, thorough):
         ev = pyjson.loads(lines[stuck - 1])
         start = max(k for k in range(stuck) if pyjson.loads(lines[k])["e"] == "reset") if stuck > 0 else 0
         ctx.mismatch("trace:%s" % ev["e"], "OJsonTrace rejects event %d of the driver log: %s" % (stuck, lines[stuck - 1][:600]),
-                     [pyjson.loads(l) for l in lines[start:stuck]])
+                     [{"case": pyjson.loads(l), "spec": "driver log prefix up to the rejected event (validate with spec/trace/OJsonTrace.tla, TRACE=<this file's case fields>)"} for l in lines[start:stuck]])
         return {"events": stuck - 1, "traces": 0}
     raise Broken("trace validation failed without a located event (rc=%s):\n%s" % (r.rc, r.out[-3000:]))
